@@ -32,6 +32,8 @@ def sig(e):
         return "match %s probe=%s patterns=%s => %s" % (e["fn"], e["probe"]["name"], "+".join(pk), accept)
     if p == "curryconc":
         return "curryconc gate=%s kind=%s" % (e.get("gate"), e["kind"])
+    if p == "currydone":
+        return "currydone invocations=%s kind=%s" % (e.get("invocations"), e["kind"])
     return "%s kind=%s" % (p, e.get("kind"))
 
 
@@ -64,7 +66,7 @@ def run(ctx, replay=None):
     quick = ctx.tier == "quick"
     if replay:
         rp = json.load(open(replay))["replay"]["case"]
-        if rp["part"] == "curryconc":
+        if rp["part"] in ("curryconc", "currydone"):
             core.out("concurrent CurryDef runs are re-executed by the check itself (drv c20 curry)")
             rf = os.path.join(ctx.scratch, "curry.ndjson")
             ctx.drv(["c20", "curry", "--n", 50, "--out", rf])
@@ -87,6 +89,10 @@ def run(ctx, replay=None):
     r2 = ctx.tlc("MC_Curry", "MC_Curry_unlocked.cfg", workers=4, timeout=300, cwd=tla)
     if not (r2.inv_violated or r2.prop_violated):
         raise core.Inconclusive("MC_Curry_unlocked: expected a counterexample (vacuity guard)")
+    r3 = ctx.tlc("MC_Curry", "MC_Curry_marksdone.cfg", workers=4, timeout=300, cwd=tla)
+    r4 = ctx.tlc("MC_Curry", "MC_Curry_marksdone_fastpath.cfg", workers=4, timeout=300, cwd=tla)
+    if not r3.completed or "Inv_OnlyFirstInvocation" not in (r4.inv_violated or []):
+        raise core.Inconclusive("MC_Curry_marksdone must hold and the done-test-before-the-mutex variant must violate it (vacuity guard)")
     ctx.notes.append("Curry.tla: fn-under-mutex variant holds (%d states); fn-outside-mutex variant violates %s" % (r.distinct, r2.inv_violated or "an action property"))
 
     gdir = ctx.sub("cases")
